@@ -3,6 +3,8 @@ package main
 import (
 	"fmt"
 	"math"
+	"sort"
+	"sync"
 	"time"
 
 	cstatsd "github.com/cactus/go-statsd-client/v5/statsd"
@@ -15,7 +17,12 @@ import (
 func init() { register("C18", runC18) }
 
 func runC18(c *mon.Ctx) {
-	c.Cases(func(i int, r *mon.Rand) { c18Case(c, r) })
+	c.Cases(func(i int, r *mon.Rand) {
+		c18Case(c, r)
+		if i%4 == 0 || c.Race {
+			c18Concurrent(c, r.Fork(9))
+		}
+	})
 }
 
 type statCall struct {
@@ -28,10 +35,15 @@ type statCall struct {
 }
 
 // recStatter records every client call.
-type recStatter struct{ calls []statCall }
+type recStatter struct {
+	mu    sync.Mutex
+	calls []statCall
+}
 
 func (s *recStatter) add(m, n string, i int64, d time.Duration, rate float32, tags []cstatsd.Tag) error {
+	s.mu.Lock()
 	s.calls = append(s.calls, statCall{m, n, i, d, rate, len(tags)})
+	s.mu.Unlock()
 	return nil
 }
 func (s *recStatter) Inc(n string, v int64, r float32, t ...cstatsd.Tag) error {
@@ -216,4 +228,109 @@ func c18Case(c *mon.Ctx, r *mon.Rand) {
 	if c.WantSample() {
 		c.Sample(desc())
 	}
+}
+
+// c18Concurrent: one reporter shared by several goroutines (a scope's report
+// loop, synchronous timers and re-acquired scopes all call the reporter from
+// their own goroutines). Every goroutine reports under names that carry its
+// number; the multiset of client calls must equal the multiset of expected
+// calls.
+func c18Concurrent(c *mon.Ctx, r *mon.Rand) {
+	prec := uint(r.Range(1, 9))
+	st := &recStatter{}
+	rep := tstatsd.NewReporter(st, tstatsd.Options{HistogramBucketNamePrecision: prec})
+	G := r.Range(2, 8)
+	per := r.Range(5, 60)
+	c.Eval(1)
+	desc := map[string]interface{}{"goroutines": G, "calls_per_goroutine": per, "precision": prec}
+	want := make([][]statCall, G)
+	var wg, start sync.WaitGroup
+	start.Add(1)
+	var panics sync.Map
+	for g := 0; g < G; g++ {
+		g := g
+		gr := r.Fork(uint64(100 + g))
+		// the calls are decided up front; names are long enough to be torn visibly
+		type op struct {
+			kind   int
+			name   string
+			v      int64
+			lo, hi float64
+			dlo    time.Duration
+			dhi    time.Duration
+		}
+		ops := make([]op, per)
+		for i := range ops {
+			o := op{kind: gr.Intn(5), name: fmt.Sprintf("g%d_%s_%d", g, gr.Ident(1+gr.Intn(24)), i), v: int64(g)<<32 | int64(i) + 1}
+			o.lo, o.hi = float64(gr.Range(-1000, 1000))/8, float64(gr.Range(1001, 3000))/8
+			o.dlo, o.dhi = time.Duration(gr.Range(0, 1000))*time.Millisecond, time.Duration(gr.Range(1001, 100000))*time.Millisecond
+			ops[i] = o
+			switch o.kind {
+			case 0:
+				want[g] = append(want[g], statCall{"Inc", o.name, o.v, 0, 1, 0})
+			case 1:
+				want[g] = append(want[g], statCall{"Gauge", o.name, o.v, 0, 1, 0})
+			case 2:
+				want[g] = append(want[g], statCall{"TimingDuration", o.name, 0, time.Duration(o.v), 1, 0})
+			case 3:
+				want[g] = append(want[g], statCall{"Inc", fmt.Sprintf("%s.%s-%s", o.name, refValueBound(prec, o.lo), refValueBound(prec, o.hi)), o.v, 0, 1, 0})
+			default:
+				want[g] = append(want[g], statCall{"Inc", fmt.Sprintf("%s.%s-%s", o.name, refDurBound(o.dlo), refDurBound(o.dhi)), o.v, 0, 1, 0})
+			}
+		}
+		wg.Add(1)
+		go func() {
+			defer wg.Done()
+			defer func() {
+				if p := recover(); p != nil {
+					panics.Store(g, fmt.Sprint(p))
+				}
+			}()
+			start.Wait()
+			for _, o := range ops {
+				switch o.kind {
+				case 0:
+					rep.ReportCounter(o.name, nil, o.v)
+				case 1:
+					rep.ReportGauge(o.name, nil, float64(o.v))
+				case 2:
+					rep.ReportTimer(o.name, nil, time.Duration(o.v))
+				case 3:
+					rep.ReportHistogramValueSamples(o.name, nil, nil, o.lo, o.hi, o.v)
+				default:
+					rep.ReportHistogramDurationSamples(o.name, nil, nil, o.dlo, o.dhi, o.v)
+				}
+			}
+		}()
+	}
+	start.Done()
+	wg.Wait()
+	panics.Range(func(k, v interface{}) bool {
+		c.Violation("panic-statsd-concurrent", map[string]interface{}{"why": v, "case": desc})
+		return true
+	})
+	key := func(x statCall) string { return fmt.Sprintf("%s|%s|%d|%d|%v", x.Method, x.Name, x.I, x.D, x.Rate) }
+	var wk, gk []string
+	for g := range want {
+		for _, x := range want[g] {
+			wk = append(wk, key(x))
+		}
+	}
+	for _, x := range st.calls {
+		gk = append(gk, key(x))
+	}
+	sort.Strings(wk)
+	sort.Strings(gk)
+	c.Event("concurrent-client-calls-checked", int64(len(gk)))
+	if len(wk) != len(gk) {
+		c.Violation("statsd-not-exactly-one-call", map[string]interface{}{"why": fmt.Sprintf("%d report calls from %d goroutines produced %d client calls", len(wk), G, len(gk)), "case": desc})
+	} else {
+		for i := range wk {
+			if wk[i] != gk[i] {
+				c.Violation("statsd-call-differs", map[string]interface{}{"why": fmt.Sprintf("concurrent use: client saw %q, expected %q (sorted position %d)", gk[i], wk[i], i), "case": desc})
+				break
+			}
+		}
+	}
+	c.Distinct(mon.Hash64("conc", fmt.Sprint(desc), fmt.Sprint(r.U64())))
 }
